@@ -570,6 +570,185 @@ fn query_corners(cx: &mut Cx)
 	}
 }
 
+// ------------------------------------------------------------------------------------------------
+// far BL: the two offset bits that come from J1/J2 (4 MiB and 8 MiB) matter only for |offset| >= 4 MiB
+
+/// BL with the given byte offset (relative to the instruction address + 4), by the architectural formula (A6.7.13)
+fn bl_bytes(off: i32) -> [u8; 4]
+{
+	let o = off as u32;
+	let (s, i1, i2) = (o >> 24 & 1, o >> 23 & 1, o >> 22 & 1);
+	let (j1, j2) = ((1 - i1) ^ s, (1 - i2) ^ s);
+	let h0 = 0xF000 | s << 10 | (o >> 12 & 0x3FF);
+	let h1 = 0xD000 | j1 << 13 | j2 << 11 | (o >> 1 & 0x7FF);
+	[h0 as u8, (h0 >> 8) as u8, h1 as u8, (h1 >> 8) as u8]
+}
+
+/// the architectural offset of a BL pattern from its raw halfwords, independent of the crate's decoder
+fn bl_arch_offset(b: &[u8]) -> i64
+{
+	let (h0, h1) = (u16::from_le_bytes([b[0], b[1]]) as i64, u16::from_le_bytes([b[2], b[3]]) as i64);
+	let (s, j1, j2) = (h0 >> 10 & 1, h1 >> 13 & 1, h1 >> 11 & 1);
+	let (i1, i2) = (1 - (j1 ^ s), 1 - (j2 ^ s));
+	let v = s << 24 | i1 << 23 | i2 << 22 | (h0 & 0x3FF) << 12 | (h1 & 0x7FF) << 1;
+	if s == 1 {v - (1 << 25)} else {v}
+}
+
+/// small files whose BL leaves the file: the label the listing prints for the target must be the architectural target
+/// computed from the raw halfwords (input `blfar <nops> <offset>`)
+fn bl_target_case(cx: &mut Cx, nops: usize, off: i32)
+{
+	let input = format!("blfar {nops} {off}");
+	let mut bin = Vec::new();
+	for _ in 0..nops {bin.extend_from_slice(&[0x00, 0xBF]);}
+	let at = BASE + bin.len() as u32;
+	let pat = bl_bytes(off);
+	bin.extend_from_slice(&pat);
+	bin.extend_from_slice(&[0x70, 0x47]);
+	let want = (at as i64 + 4 + bl_arch_offset(&pat)) as u32;
+	if bl_arch_offset(&pat) != off as i64 {cx.report.oracle_fail(input.clone(), "harness error: BL pattern does not carry the requested offset"); return;}
+	let dir = cx.work.join("blfar");
+	std::fs::create_dir_all(&dir).unwrap();
+	let path = dir.join("code.bin");
+	std::fs::write(&path, &bin).unwrap();
+	let out = Command::new(repo_bin("tridas")).arg(&path).output().expect("cannot run tridas");
+	let listing = String::from_utf8_lossy(&out.stdout).into_owned();
+	cx.report.case(Some(&format!("blfar {:?}", bl_arch_offset(&pat) >> 22)));
+	cx.report.hit(if (off as u32 >> 22 & 1) != (off as u32 >> 23 & 1) {"BL leaving the file: J1 != J2"} else {"BL leaving the file: J1 == J2"});
+	if !out.status.success() || !out.stderr.is_empty() {cx.report.oracle_fail(input, format!("tridas failed: {:?} {}", out.status.code(), String::from_utf8_lossy(&out.stderr).lines().next().unwrap_or(""))); return;}
+	let instr_lines: Vec<&str> = listing.lines().filter_map(|l| l.strip_prefix('\t')).collect();
+	match instr_lines.get(nops)
+	{
+		Some(l) if l.to_ascii_uppercase().starts_with("BL ") =>
+		{
+			let label = l[3..].trim().trim_end_matches(';').trim();
+			let got = label.strip_prefix("l_").and_then(|h| u32::from_str_radix(h, 16).ok());
+			if got != Some(want)
+			{
+				cx.report.oracle_fail(input, format!("BL {} at {at:08X} has the architectural target {want:08X}; the listing says `{l}`", hex(&pat)));
+			}
+		},
+		other => cx.report.oracle_fail(input, format!("instruction line {nops} of the listing is {other:?}, expected the BL")),
+	}
+}
+
+/// A binary larger than 4 MiB with a BL across more than 4 MiB of it (`far fwd` / `far back`), inside the hypothesis of C20:
+/// every instruction is reachable, the branch target is inside the file. Oracle on the implementation alone (the model's line
+/// protocol is not made for two million entries): one label, directly before the instruction at the target; the BL names it; the
+/// listing has one line per instruction; trias accepts the listing and reproduces every input byte at 0x20000000.
+fn far_case(cx: &mut Cx, which: &str)
+{
+	let input = format!("far {which}");
+	let filler: [u8; 4] = [0xBF, 0xF3, 0x5F, 0x8F];   // DMB SY
+	let n = 0x10_0001usize;                             // 4 MiB + 4 of filler
+	let mut parts: Vec<Vec<u8>> = Vec::new();          // one entry per instruction
+	let target_index;
+	let bl_index;
+	match which
+	{
+		"fwd" =>
+		{
+			// BL over the filler to the final BX LR
+			parts.push(bl_bytes((4 * n) as i32).to_vec());
+			bl_index = 0;
+			for _ in 0..n {parts.push(filler.to_vec());}
+			target_index = parts.len();
+			parts.push(vec![0x70, 0x47]);
+		},
+		"back" =>
+		{
+			// B skip; target: BX LR; skip: filler…; BL target; BX LR
+			parts.push(vec![0x00, 0xE0]);                  // B +0 -> address 4
+			target_index = 1;
+			parts.push(vec![0x70, 0x47]);
+			for _ in 0..n {parts.push(filler.to_vec());}
+			bl_index = parts.len();
+			let at = 4 + 4 * n as i64;
+			parts.push(bl_bytes((2 - (at + 4)) as i32).to_vec());
+			parts.push(vec![0x70, 0x47]);
+		},
+		_ => {cx.report.oracle_fail(input, "unrecognised replay input"); return;},
+	}
+	let mut addrs = Vec::with_capacity(parts.len());
+	let mut bin: Vec<u8> = Vec::new();
+	for p in &parts {addrs.push(BASE + bin.len() as u32); bin.extend_from_slice(p);}
+	let target = addrs[target_index];
+	let mut targets: BTreeSet<u32> = BTreeSet::new();
+	targets.insert(target);
+	if which == "back" {targets.insert(BASE + 4);}
+	let dir = cx.work.join("far");
+	std::fs::create_dir_all(&dir).unwrap();
+	let (bin_path, asm_path, uf2_path) = (dir.join("code.bin"), dir.join("listing.asm"), dir.join("out.uf2"));
+	std::fs::write(&bin_path, &bin).unwrap();
+	let _ = std::fs::remove_file(&uf2_path);
+	let out = Command::new(repo_bin("tridas")).arg(&bin_path).output().expect("cannot run tridas");
+	cx.report.case(Some(&input));
+	cx.report.hit(&format!("binary > 4 MiB with a far BL ({which})"));
+	if !out.status.success() || !out.stderr.is_empty() {cx.report.oracle_fail(input, format!("tridas failed: {:?} {}", out.status.code(), String::from_utf8_lossy(&out.stderr).lines().next().unwrap_or(""))); return;}
+	let listing = String::from_utf8_lossy(&out.stdout).into_owned();
+	// structure: header, then per instruction (in address order) an optional label line and the instruction line
+	let mut k = 0usize;
+	let mut labels_seen: BTreeSet<u32> = BTreeSet::new();
+	let mut pending_label: Option<u32> = None;
+	let mut problem: Option<String> = None;
+	for (ln, l) in listing.lines().enumerate()
+	{
+		if ln == 0 {if l != ".addr 0x20000000;" {problem = Some(format!("first line {l:?}")); break;} continue;}
+		if l.is_empty() {continue;}
+		if let Some(h) = l.strip_prefix("l_").and_then(|r| r.strip_suffix(':'))
+		{
+			let a = u32::from_str_radix(h, 16).unwrap_or(0);
+			if !labels_seen.insert(a) {problem = Some(format!("label l_{h} defined twice")); break;}
+			if pending_label.is_some() {problem = Some("two labels in a row".to_owned()); break;}
+			pending_label = Some(a);
+		}
+		else if let Some(t) = l.strip_prefix('\t')
+		{
+			if k >= parts.len() {problem = Some("more instruction lines than instructions".to_owned()); break;}
+			if let Some(a) = pending_label.take() {if a != addrs[k] {problem = Some(format!("label l_{a:08X} stands before the instruction at {:08X}", addrs[k])); break;}}
+			if k == bl_index && t.trim_end_matches(';').trim() != format!("BL l_{target:08X}") {problem = Some(format!("the BL to {target:08X} is listed as `{t}`")); break;}
+			k += 1;
+		}
+		else {problem = Some(format!("line {ln}: {l:?}")); break;}
+	}
+	if problem.is_none() && k != parts.len() {problem = Some(format!("{k} instruction lines for {} instructions", parts.len()));}
+	if problem.is_none() && labels_seen != targets {problem = Some(format!("labels defined {:?}, branch targets {:?}", labels_seen.iter().map(|a| format!("{a:08X}")).collect::<Vec<_>>(), targets.iter().map(|a| format!("{a:08X}")).collect::<Vec<_>>()));}
+	if let Some(p) = problem {cx.report.oracle_fail(input, format!("listing of a {}-byte binary: {p}", bin.len())); return;}
+	std::fs::write(&asm_path, listing.as_bytes()).unwrap();
+	let tr = Command::new(repo_bin("trias")).arg(&asm_path).arg(&uf2_path).output().expect("cannot run trias");
+	match std::fs::read(&uf2_path)
+	{
+		Err(_) => cx.report.oracle_fail(input, format!("trias does not accept the listing: {}", String::from_utf8_lossy(&tr.stderr).lines().take(2).collect::<Vec<_>>().join(" / "))),
+		Ok(data) =>
+		{
+			// blocks of 256 payload bytes at ascending page addresses: compare page by page without building a byte map
+			if data.len() % 512 != 0 {cx.report.oracle_fail(input, "UF2 length is not a multiple of 512"); return;}
+			let mut seen = vec![false; bin.len()];
+			for b in data.chunks(512)
+			{
+				let word = |o: usize| u32::from_le_bytes([b[o], b[o + 1], b[o + 2], b[o + 3]]);
+				let (addr, size) = (word(0x0C), word(0x10) as usize);
+				for j in 0..size.min(476)
+				{
+					let a = addr.wrapping_add(j as u32);
+					if a >= BASE && ((a - BASE) as usize) < bin.len()
+					{
+						let i = (a - BASE) as usize;
+						if seen[i] || bin[i] != b[0x20 + j] {cx.report.oracle_fail(input, format!("re-assembled byte at {a:08X} is {:02x}{}, the input has {:02x}", b[0x20 + j], if seen[i] {" (second time)"} else {""}, bin[i])); return;}
+						seen[i] = true;
+					}
+					else if b[0x20 + j] != 0 {cx.report.oracle_fail(input, format!("re-assembled image has byte {:02x} at {a:08X}, outside the input", b[0x20 + j])); return;}
+				}
+			}
+			if let Some(i) = seen.iter().position(|s| !s) {cx.report.oracle_fail(input, format!("input byte at {:08X} is missing from the re-assembled image", BASE + i as u32));}
+		},
+	}
+	let _ = std::fs::remove_dir_all(&dir);
+}
+
+const BL_FAR_OFFSETS: [i32; 14] = [0x40_0000, 0x40_0002, 0x7F_FFFE, 0x80_0000, 0xBF_FFFE, 0xC0_0000, 0xFF_FFFE, 0x3F_FFFE,
+	-0x40_0000, -0x40_0002, -0x80_0000, -0xC0_0000, -0xC0_0002, -0x3F_FFFE];
+
 pub fn run(_id: &str, cx: &mut Cx)
 {
 	cx.report.rule = "binaries = 1..N instructions (N = 40 quick, 150 thorough; four branch densities) from the real encoder: random canonical 16/32-bit instructions, B/B<cond>/BL to random boundaries (forward, backward, self), terminals BX / POP {..,PC} / UDF / B (also BKPT, UDF.W, MOV PC, ADD PC), repaired until every instruction is reachable, terminal at the end, no ADR / LDR literal. \
@@ -578,6 +757,17 @@ Each: real tridas -> listing -> real trias -> UF2 -> independent reader. non-tri
 	{
 		if input == "cli noargs" {cli_noargs(cx); return;}
 		if input == "queries" {query_corners(cx); return;}
+		if let Some(rest) = input.strip_prefix("far ") {far_case(cx, rest.trim()); return;}
+		if let Some(rest) = input.strip_prefix("blfar ")
+		{
+			let w: Vec<&str> = rest.split(' ').collect();
+			match (w.first().and_then(|x| x.parse::<usize>().ok()), w.get(1).and_then(|x| x.parse::<i32>().ok()))
+			{
+				(Some(n), Some(off)) => bl_target_case(cx, n, off),
+				_ => cx.report.oracle_fail(input, "unrecognised replay input"),
+			}
+			return;
+		}
 		match unhex(input.strip_prefix("alias:").unwrap_or(&input))
 		{
 			Some(bin) =>
@@ -607,6 +797,9 @@ Each: real tridas -> listing -> real trias -> UF2 -> independent reader. non-tri
 	}
 	cli_noargs(cx);
 	query_corners(cx);
+	for off in BL_FAR_OFFSETS {for nops in [0usize, 1, 2, 7] {bl_target_case(cx, nops, off);}}
+	// binaries > 4 MiB with a BL across them: about a second each (tridas and trias are fast; no model request)
+	for which in ["fwd", "back"] {far_case(cx, which);}
 	// branches at the limits of their ranges need long files: filler NOPs around B / B<cond> at -2048, +2046, -256, +254
 	{
 		let nop = enc(&Instruction::Nop).unwrap();
